@@ -292,11 +292,27 @@ def run_all(tier, seed):
     runs = [r0]
     # A function in which the solver ran out of resources is decided by a second run with six times the budget (the verdicts
     # of the default run inside such a function are not used: near the limit the solver also reports spurious failures).
+    # The retry verifies each such function ALONE (`--verify-function`: a much smaller solver context) with six times the budget.
     res['retry'] = None
-    if any(f['kind'] == 'rlimit' and f['fn'] != 'vp_must_fail' for f in failures(gi, r0['diags'])):
-        rr = one(path, ['--rlimit', '60'], 'z3 rlimit x6 (retry of functions that ran out of resources)')
-        rr.pop('stdout_tail', None)
-        res['retry'] = rr
+    rl_fns = sorted(set(f['fn'] for f in failures(gi, r0['diags']) if f['kind'] == 'rlimit' and f['fn'] and f['fn'] != 'vp_must_fail'))
+    if rl_fns:
+        merged = {'name': 'z3 rlimit x6, one function at a time (retry of functions that ran out of resources)', 'diags': [], 'json': {'verification-results': {}},
+                  'wall_s': 0.0, 'cmd': '', 'per_function': {}}
+        where = dict(((key or nm), (gi.module_of(ln), nm)) for (ln, nm, key, src) in gi.fn_at)
+        for fk in rl_fns:
+            if fk not in where:
+                continue
+            mod, nm = where[fk]
+            rr = one(path, ['--rlimit', '60', '--verify-only-module', mod, '--verify-function', '*::' + nm], 'retry ' + fk)
+            if any('could not find function' in (d.get('message') or '') for d in rr['diags']):
+                rr = one(path, ['--rlimit', '60', '--verify-only-module', mod], 'retry module of ' + fk)
+            merged['diags'] += rr['diags']
+            merged['wall_s'] += rr['wall_s']
+            merged['cmd'] = rr['cmd']
+            merged['per_function'][fk] = {'timeout': bool(rr.get('timeout')), 'ok': bool(rr.get('json'))}
+            if rr.get('timeout') or not rr.get('json'):
+                merged['json'] = None
+        res['retry'] = merged
     if tier == 'thorough':
         runs.append(one(path, ['--rlimit', '40', '--smt-option', 'smt.random_seed=%d' % (int(seed) % 1000 + 1)], 'z3 rlimit x4, random_seed'))
         runs.append(one(path, ['--rlimit', '40', '--smt-option', 'smt.random_seed=%d' % (int(seed) % 1000 + 77)], 'z3 rlimit x4, second random_seed'))
